@@ -7,7 +7,8 @@ ScribbleMsgHarmless, MsgUntouchedByEncode, EncodeResult and the action property 
 generator tree.  Stage B: the same tree provides inputs (accepted and rejected) and message values.
 Stage C: the driver performs exactly the model's environment actions on the real objects (snapshot, decode, invert the
 input, re-project, invert every message octet, re-read the input, decode again; encode into pre-filled buffers of
-0/1/17/4096 octets twice) and TLC checks the observations."""
+0/1/17/4096 octets twice) and TLC checks the observations.
+Added after seeded rounds 3-5: the second decode runs in other memory than the first (cap = len vs. spare capacity with a sentinel); the second encoding goes into a buffer that was grown, used, Reset and prefixed; the outer header view is compared before and after ALL encodings, including hand-assembled messages."""
 import json, os, sys
 sys.path.insert(0, os.path.dirname(os.path.abspath(__file__)))
 from codec_common import *
